@@ -210,18 +210,23 @@ def network_cases(jobs):
                     p._pyroSerializer = sername
                     p._pyroBind()
                 record.clear()
-                pr, got, ok = pos("result", lambda: p.echo(v, nest={"n": [v]}, k=v, pad=pad))
+                pr, got, ok = pos("result", lambda: p.echo(v, k=v, pad=pad))
                 seen = record.get("seen")
                 if seen is not None:
-                    tr["pos"] += [{"name": "positional", "out": "ok", "shape": shape(seen[0])}, {"name": "keyword", "out": "ok", "shape": shape(seen[2])},
-                                  {"name": "nested", "out": "ok", "shape": shape(seen[1]["n"][0])}]
+                    tr["pos"] += [{"name": "positional", "out": "ok", "shape": shape(seen[0])}, {"name": "keyword", "out": "ok", "shape": shape(seen[2])}]
                 else:
-                    tr["pos"] += [dict(pr, name=n, out="err") for n in ("positional", "keyword", "nested")]
+                    tr["pos"] += [dict(pr, name=n, out="err") for n in ("positional", "keyword")]
+                # the value one container level down inside an argument: a call of its own (a serializer may convert less there)
+                record.clear()
+                pn, _, okn = pos("nested", lambda: p.echo(None, nest={"n": [v]}))
+                seen_n = record.get("seen")
+                nested_val = seen_n[1]["n"][0] if seen_n is not None else None
+                tr["pos"].append({"name": "nested", "out": "ok", "shape": shape(nested_val)} if seen_n is not None else dict(pn, name="nested", out="err"))
                 tr["pos"].append(pr if ok or seen is None else pr)
                 if seen is not None and not ok:
                     pass        # arguments arrived but the result could not travel back: PosCheck decides
                 if ok and seen is not None:
-                    tr["sym"] = all(same(x, got) for x in (seen[0], seen[2], seen[1]["n"][0]))
+                    tr["sym"] = all(same(x, got) for x in (seen[0], seen[2])) and (seen_n is None or same(nested_val, got))
                     tr["exact"] = same(got, v) and same(seen[0], v)
                     # batch result and streamed item
                     def batch():
